@@ -15,6 +15,7 @@ from __future__ import annotations
 from pathlib import Path
 
 from cfdpsim.runner import from_world
+from cfdpsim.synth import KINDS, Synth
 from cfdpsim.tape import Tape
 from cfdpsim.world import ACK, UNACK, Cfg, LinkCfg, Violation, World, pdu_hdr, tid_t
 from props.monitors import Monitor, build_msgs
@@ -180,7 +181,7 @@ def build(tT, sibling_tape=None):
 # ---------------------------------------------------------------------------------------------
 # variant B: history on the same handler objects
 
-H_KINDS = ("complete", "cancel_src", "cancel_dst", "silence", "abandon", "leave_busy")
+H_KINDS = ("complete", "cancel_src", "cancel_dst", "silence", "abandon", "leave_busy", "junk")
 
 
 def run_history(w, t, hist_log):
@@ -190,7 +191,8 @@ def run_history(w, t, hist_log):
     n = 1 + t.weighted([4, 3, 1], "n history")
     unfinished = 0
     for i in range(n):
-        kind = H_KINDS[t.weighted([3, 2, 2, 2, 2, 2], "history kind")]
+        kind = H_KINDS[t.weighted([3, 2, 2, 2, 2, 2, 2], "history kind")]
+        junk_abandon = kind == "junk" and t.choose(2, "junk with abandon handlers") == 1
         mode = [ACK, UNACK][t.choose(2, "history mode")]
         closure = bool(t.choose(2, "history closure"))
         size = [3 * max(w.cfg.eff_seg, 1) + 1, 0, 1, 7 * max(w.cfg.eff_seg, 1), max(w.cfg.eff_seg, 1)][t.choose(5, "history size")]
@@ -200,10 +202,11 @@ def run_history(w, t, hist_log):
         hist_log.append(f"{kind}/{mode.name[:3]}/{size}")
         lk = LinkCfg(("drop", "dup", "delay"), [(0, 1), (1, 6), (1, 3)][t.choose(3, "history fault rate")], None)
         a.lk = b.lk = lk
-        if kind == "abandon":
+        if kind == "abandon" or junk_abandon:
             for ent in (a, b):
                 for cc in (ConditionCode.POSITIVE_ACK_LIMIT_REACHED, ConditionCode.NAK_LIMIT_REACHED, ConditionCode.CHECK_LIMIT_REACHED,
-                           ConditionCode.FILE_CHECKSUM_FAILURE, ConditionCode.CANCEL_REQUEST_RECEIVED):
+                           ConditionCode.FILE_CHECKSUM_FAILURE, ConditionCode.CANCEL_REQUEST_RECEIVED, ConditionCode.FILE_SIZE_ERROR,
+                           ConditionCode.FILESTORE_REJECTION):
                     ent.fh.set_handler(cc, FaultHandlerCode.ABANDON_TRANSACTION)
         # earlier transactions carry message lists (originating id, proxy messages) that T does not
         hm, _ = build_msgs(t.weighted([3, 1, 2, 1, 1, 1, 1], "history msgs"))
@@ -236,6 +239,24 @@ def run_history(w, t, hist_log):
                         w.link.partition["b"] = True
                 elif kind == "leave_busy":
                     break
+                elif kind == "junk":
+                    # a misbehaving peer: a few arbitrary well-formed PDUs for the running transaction at either entity
+                    # (header fields are those of the running transaction: a PDU carrying a FUTURE sequence number would
+                    # put T's own id into the user's transaction history, which is not the handlers' doing)
+                    syn = Synth(w, perturb=0)
+                    syn.data = data
+                    syn.size = len(data)
+                    syn.src_path, syn.dst_req = f"src/h{i}.bin", f"dst/h{i}.bin"
+                    for _ in range(1 + t.choose(4, "n junk")):
+                        to_b = t.choose(3, "junk at") != 2
+                        jk = KINDS[t.weighted([2, 5, 3, 1, 2, 2, 2, 1, 1] if to_b else [1, 1, 1, 3, 1, 5, 4, 1, 1], "junk kind")]
+                        tidh = a.handlers["src"].transaction_id
+                        seq = tidh.seq_num.value if tidh is not None else (a.seqp.issued[-1] if a.seqp.issued else 0)
+                        try:
+                            raw = bytes(syn.gen(t, jk, seq)[0].pack())
+                        except Exception:  # noqa: BLE001
+                            continue
+                        w.deliver(b if to_b else a, raw)
             if not w.step():
                 break
             if w.pending == 0 and a.handlers["src"].state.name == "IDLE" and b.handlers["dst"].state.name == "IDLE":
@@ -244,7 +265,7 @@ def run_history(w, t, hist_log):
                 break
         w.link.partition["a"] = False
         w.link.partition["b"] = False
-        if kind == "abandon":
+        if kind == "abandon" or junk_abandon:
             for ent in (a, b):
                 ent.fh.__init__(w, ent)  # back to the default table (configuration, not state)
         # whatever is still busy: cancel, then reset (the user gives up on the old transaction)
